@@ -262,6 +262,8 @@ def run_job(job, scratch, cover_pass=False):
     if job.replace_calls:
         for rcall in job.replace_calls:
             gi += ["--replace-calls", rcall]
+    if job.kind != "K1" or not job.enforce:
+        gi += ["--drop-unused-functions"]
     if gi:
         nxt = os.path.join(wd, "b%d.gb" % step)
         cmd = ["goto-instrument"] + gi + [cur, nxt]
@@ -297,7 +299,7 @@ def run_job(job, scratch, cover_pass=False):
         cur = nxt
         step += 1
     outjson = os.path.join(wd, "out.json")
-    cmd = ["cbmc", "--json-ui"]
+    cmd = ["cbmc", "--json-ui", "--object-bits", "12"]
     if job.safety and not cover_pass:
         cmd += SAFETY
     if job.unwind is not None:
